@@ -61,7 +61,7 @@ def configs(prop, tier, rng):
     if not q or prop in ("C03", "C04"):
         out.append(("n3.evaluator", c3, 3, 1, [0, 2], 1))
     # every index takes the corrupted role once for n = 3 (checks that loop over "the other parties" are easily asymmetric)
-    if not q or prop == "C04":
+    if not q or prop in ("C03", "C04"):
         out.append(("n3.first", c3, 3, 2, [1, 2], 0))
     if not q:
         # thorough: every (evaluator, corrupted party) pair
